@@ -35,7 +35,7 @@ class NPProxy:
     def __init__(self, sym=True, minmax="if"):
         self.sym = sym
         self.minmax = minmax   # "if": If-chain reductions; "fork": numpy's own (forking)
-        self.log = set()
+        self.hits = set()
 
     def __getattr__(self, name):
         return getattr(_np, name)
